@@ -6,7 +6,8 @@ package main
 // os.Rename and os.Remove are atomic).
 //
 //	R1  a non-atomic write (os.WriteFile, OpenFile for writing, Create, Truncate) never targets a
-//	    live file: its path is a temporary name (<x>.tmp)
+//	    live file: its path is a temporary name (<x>.tmp); no file is created under a generated
+//	    name (os.CreateTemp), which the loaders could mistake for a live file
 //	R2  a rename whose source is a temporary name is reached only after the write of that very
 //	    path returned nil (the temporary file is complete before it replaces the live file)
 //	R3  a temporary file opened for writing is truncated or created exclusively
@@ -99,6 +100,12 @@ func pluginCrash(r *Run, it Item) {
 				w := &writes[len(writes)-1]
 				w.ok = and(cs.Reach, eq(cs.Res[1].T, "0"))
 			}
+		case "os.CreateTemp":
+			// R1 also: a temporary file must be recognisable as one (<final name>.tmp).  A generated
+			// name in the data directory may match what the loaders pick up (*.yaml, ...), so a crash
+			// between creation and rename leaves a torn file that is loaded on restart.
+			n++
+			vc.oblige(fmt.Sprintf("%s#crash:R1-temp-name-not-recognisable:%s", key, site), "crash", cs.Reach, "false", pos)
 		case "os.Truncate":
 			n++
 			vc.oblige(fmt.Sprintf("%s#crash:R1-write-to-live-file:%s", key, site), "crash", cs.Reach, isTmpTerm(vc, cs.Args[0][0].T, tmpID), pos)
